@@ -56,6 +56,24 @@ func (r *recPool) GetReadSeeker(i int64) (io.ReadSeeker, error) {
 	return r.Pool.GetReadSeeker(i)
 }
 
+// stopper always wants to save, keeps a serialized copy of checkpoint number `at` and stops there.
+type stopper struct {
+	at, n int
+	kept  *patcher.Checkpoint
+}
+
+func (s *stopper) ShouldSave() bool { return true }
+func (s *stopper) Save(c *patcher.Checkpoint) (patcher.AfterSaveAction, error) {
+	n := s.n
+	s.n++
+	if n == s.at {
+		s.kept = &patcher.Checkpoint{}
+		hlib.Must(rt.CloneViaGob(s.kept, c), "checkpoint survives gob")
+		return patcher.AfterSaveStop, nil
+	}
+	return patcher.AfterSaveContinue, nil
+}
+
 func restrict(b []byte, alpha int) {
 	for _, c := range b {
 		rt.Assume(int(c) < alpha)
@@ -110,9 +128,30 @@ func H_whitelist() {
 	fb, err := bowl.NewFreshBowl(bowl.FreshBowlParams{SourceContainer: p.GetSourceContainer(), TargetContainer: p.GetTargetContainer(), TargetPool: pool, OutputFolder: root + "/out"})
 	hlib.Must(err, "NewFreshBowl")
 	rb := &recBowl{Bowl: fb}
-	rt.Assert(p.Resume(nil, pool, rb) == nil, "whitelisted application finishes without error")
-	rt.Assert(rb.Commit() == nil, "commit without error")
-	rt.Assert(p.GetTouchedFiles() == int64(count), "touched files == size of the whitelist")
+	if rt.HasParam("stopat") {
+		// interrupted at its stopat-th checkpoint and resumed in a brand-new patcher with the same whitelist:
+		// still only whitelisted files, and all of them
+		sv := &stopper{at: rt.Param("stopat")}
+		p.SetSaveConsumer(sv)
+		ferr := p.Resume(nil, pool, rb)
+		if sv.kept != nil {
+			rt.Reach("interrupted")
+			p2, err := patcher.New(seeksource.FromBytes(patch), hlib.Consumer)
+			hlib.Must(err, "patcher.New (resume)")
+			p2.SetSourceIndexWhitelist(wl)
+			fb2, err := bowl.NewFreshBowl(bowl.FreshBowlParams{SourceContainer: p2.GetSourceContainer(), TargetContainer: p2.GetTargetContainer(), TargetPool: pool, OutputFolder: root + "/out"})
+			hlib.Must(err, "NewFreshBowl (resume)")
+			rb.Bowl = fb2
+			rt.Assert(p2.Resume(sv.kept, pool, rb) == nil, "resumed whitelisted application finishes without error")
+		} else {
+			rt.Assert(ferr == nil, "whitelisted application finishes without error")
+		}
+		rt.Assert(rb.Commit() == nil, "commit without error")
+	} else {
+		rt.Assert(p.Resume(nil, pool, rb) == nil, "whitelisted application finishes without error")
+		rt.Assert(rb.Commit() == nil, "commit without error")
+		rt.Assert(p.GetTouchedFiles() == int64(count), "touched files == size of the whitelist")
+	}
 	for _, i := range rb.writers {
 		rt.Assert(wl[i], "the bowl is asked to write only whitelisted files")
 	}
